@@ -68,10 +68,16 @@ type Ctx struct {
 	birth   map[string]int    // fresh reference -> index at allocation
 	notes   []string
 	assumed map[string]bool // assumption registry (for evidence)
+	frameMem map[string]frameRec // heap array that agrees with an older one on every object that existed at stamp
+}
+
+type frameRec struct {
+	old   string
+	stamp int
 }
 
 func NewCtx() *Ctx {
-	return &Ctx{named: map[string]Term{}, assumed: map[string]bool{}, defs: map[string]string{}, birth: map[string]int{}}
+	return &Ctx{named: map[string]Term{}, assumed: map[string]bool{}, defs: map[string]string{}, birth: map[string]int{}, frameMem: map[string]frameRec{}}
 }
 
 var nameClean = regexp.MustCompile(`[^A-Za-z0-9_.$]`)
